@@ -1,2 +1,159 @@
-(* HttpProofs: lemmas for C16 (in progress) *)
-From Coq Require Import List.
+(* HttpProofs: lemmas about the HTTP head parser model (C16). *)
+From Coq Require Import List Arith Lia Bool NArith.
+From NngV Require Import Base.ListX Base.Bytes Codec.ChunkedModel Codec.HttpLineModel.
+Import ListNotations.
+Local Open Scope N_scope.
+
+(* ---- http_scan_line is restartable: more bytes never change a decision already taken ---- *)
+Lemma scan_from_app_line : forall l lc acc m line rest,
+  scan_from lc acc l = SLine line rest -> scan_from lc acc (l ++ m) = SLine line (rest ++ m).
+Proof.
+  induction l as [|c l IH]; intros lc acc m line rest H; cbn [scan_from app] in *; [discriminate|].
+  destruct (c =? 10); [inversion H; subst; reflexivity|].
+  destruct (((c <? 32) && negb (c =? 13)) || (lc =? 13)); [discriminate|].
+  apply IH. exact H.
+Qed.
+
+Lemma scan_from_app_proto : forall l lc acc m,
+  scan_from lc acc l = SProto -> scan_from lc acc (l ++ m) = SProto.
+Proof.
+  induction l as [|c l IH]; intros lc acc m H; cbn [scan_from app] in *; [discriminate|].
+  destruct (c =? 10); [discriminate|].
+  destruct (((c <? 32) && negb (c =? 13)) || (lc =? 13)); [reflexivity|].
+  apply IH. exact H.
+Qed.
+
+(* an incomplete line: the scan of the longer buffer is the scan of the rest
+   continued from the state reached (last byte, bytes so far) *)
+Fixpoint scan_state (lc : byte) (acc : list byte) (l : list byte) : byte * list byte :=
+  match l with [] => (lc, acc) | c :: r => scan_state c (c :: acc) r end.
+Lemma scan_from_app_again : forall l lc acc m,
+  scan_from lc acc l = SAgain ->
+  scan_from lc acc (l ++ m) = scan_from (fst (scan_state lc acc l)) (snd (scan_state lc acc l)) m.
+Proof.
+  induction l as [|c l IH]; intros lc acc m H; cbn [scan_from app scan_state fst snd] in *; [reflexivity|].
+  destruct (c =? 10); [discriminate|].
+  destruct (((c <? 32) && negb (c =? 13)) || (lc =? 13)); [discriminate|].
+  apply IH. exact H.
+Qed.
+
+(* consequently a line is found in a ++ b exactly where it is found when a
+   arrives first and the scan is repeated from the start of the line *)
+Lemma scan_line_split a b :
+  http_scan_line (a ++ b) =
+    match http_scan_line a with
+    | SLine line rest => SLine line (rest ++ b)
+    | SProto => SProto
+    | SAgain => http_scan_line (a ++ b)
+    end.
+Proof.
+  unfold http_scan_line. destruct (scan_from 0 [] a) eqn:E.
+  - reflexivity.
+  - apply scan_from_app_proto. exact E.
+  - apply scan_from_app_line. exact E.
+Qed.
+
+(* a bare CR, or a control character, is rejected wherever the buffer is cut *)
+Lemma scan_bare_cr : forall pre lc acc c rest,
+  scan_from lc acc pre = SAgain -> fst (scan_state lc acc pre) = 13 -> c <> 10 ->
+  scan_from lc acc (pre ++ c :: rest) = SProto.
+Proof.
+  intros pre lc acc c rest H L C. rewrite scan_from_app_again by exact H. cbn [scan_from].
+  replace (c =? 10) with false by (symmetry; apply N.eqb_neq; exact C).
+  rewrite L. cbn [N.eqb Pos.eqb]. rewrite orb_true_r. reflexivity.
+Qed.
+
+Lemma scan_control_char : forall pre lc acc c rest,
+  scan_from lc acc pre = SAgain -> c < 32 -> c <> 10 -> c <> 13 ->
+  scan_from lc acc (pre ++ c :: rest) = SProto.
+Proof.
+  intros pre lc acc c rest H L C D. rewrite scan_from_app_again by exact H. cbn [scan_from].
+  replace (c =? 10) with false by (symmetry; apply N.eqb_neq; exact C).
+  replace (c <? 32) with true by (symmetry; apply N.ltb_lt; exact L).
+  replace (c =? 13) with false by (symmetry; apply N.eqb_neq; exact D). reflexivity.
+Qed.
+
+(* ---- malformed start lines ---- *)
+Lemma split_at_none d l : ~ In d l -> split_at d l = None.
+Proof.
+  induction l as [|c l IH]; intros H; cbn [split_at]; [reflexivity|].
+  destruct (c =? d) eqn:E; [apply N.eqb_eq in E; subst; exfalso; apply H; left; reflexivity|].
+  rewrite IH; [reflexivity|]. intros X. apply H. right. exact X.
+Qed.
+
+Lemma split_at_some d l a b : split_at d l = Some (a, b) -> l = a ++ d :: b /\ ~ In d a.
+Proof.
+  revert a b. induction l as [|c l IH]; intros a b H; cbn [split_at] in H; [discriminate|].
+  destruct (c =? d) eqn:E.
+  - apply N.eqb_eq in E. inversion H; subst. split; [reflexivity|intros []].
+  - destruct (split_at d l) as [[a' b']|]; [|discriminate]. inversion H; subst.
+    destruct (IH a' b eq_refl) as [-> N]. split; [reflexivity|].
+    intros [X|X]; [subst; rewrite N.eqb_refl in E; discriminate|exact (N X)].
+Qed.
+
+(* fewer than two spaces: 400, nothing else changes *)
+Lemma req_line_no_space h line : get_status h < 400 -> ~ In 32 line ->
+  req_parse_line h line = (set_code h 400 None, false).
+Proof.
+  intros S H. unfold req_parse_line.
+  replace (400 <=? get_status h) with false by (symmetry; apply N.leb_gt; exact S).
+  rewrite split_at_none by exact H. reflexivity.
+Qed.
+
+Lemma req_line_one_space h a b : get_status h < 400 -> ~ In 32 a -> ~ In 32 b ->
+  req_parse_line h (a ++ 32 :: b) = (set_code h 400 None, false).
+Proof.
+  intros S Ha Hb. unfold req_parse_line.
+  replace (400 <=? get_status h) with false by (symmetry; apply N.leb_gt; exact S).
+  assert (E: split_at 32 (a ++ 32 :: b) = Some (a, b)).
+  { clear S Hb. induction a as [|c a IH]; cbn [app split_at].
+    - reflexivity.
+    - destruct (c =? 32) eqn:E; [apply N.eqb_eq in E; subst; exfalso; apply Ha; left; reflexivity|].
+      rewrite IH; [reflexivity|]. intros X. apply Ha. right. exact X. }
+  rewrite E, split_at_none by exact Hb. reflexivity.
+Qed.
+
+(* unsupported version with a URI of the modelled domain: 505 *)
+Lemma req_line_bad_version h m u v rest :
+  get_status h < 400 -> split_at 32 (m ++ 32 :: rest) = Some (m, rest) -> split_at 32 rest = Some (u, v) ->
+  canon_simple u = CanonOk u -> version_ok v = false ->
+  req_parse_line h (m ++ 32 :: rest) = (set_code h 505 None, false).
+Proof.
+  intros S E1 E2 C V. unfold req_parse_line.
+  replace (400 <=? get_status h) with false by (symmetry; apply N.leb_gt; exact S).
+  rewrite E1, E2, C, V. reflexivity.
+Qed.
+
+(* status line: without two spaces, or with a code outside 100..999: EPROTO and no change *)
+Lemma res_line_no_space h line : ~ In 32 line -> res_parse_line h line = (h, NNG_EPROTO).
+Proof. intros H. unfold res_parse_line. rewrite split_at_none by exact H. reflexivity. Qed.
+
+Lemma res_line_bad_code h v c r line :
+  split_at 32 line = Some (v, c ++ 32 :: r) -> split_at 32 (c ++ 32 :: r) = Some (c, r) ->
+  (atoi32 c <? 100) || (999 <? atoi32 c) = true -> res_parse_line h line = (h, NNG_EPROTO).
+Proof. intros E1 E2 A. unfold res_parse_line. rewrite E1, E2, A. reflexivity. Qed.
+
+(* a header line without a colon *)
+Lemma header_no_colon isreq h line : ~ In 58 line -> parse_header isreq h line = (h, NNG_EPROTO).
+Proof. intros H. unfold parse_header. rewrite split_at_none by exact H. reflexivity. Qed.
+
+(* ... which a response parser reports and a request parser drops (the code as it is) *)
+Definition req_nocolon_witness : list byte :=
+  [71;69;84;32;47;32;72;84;84;80;47;49;46;49;13;10; 66;97;100;13;10; 13;10].   (* "GET / HTTP/1.1\r\nBad\r\n\r\n" *)
+Lemma req_header_nocolon_accepted :
+  let '(h, rv, used, unk) := req_parse hconn_init req_nocolon_witness in
+  rv = 0 /\ get_status h = 200 /\ h_hdrs h = [] /\ used = length req_nocolon_witness.
+Proof. vm_compute. repeat split. Qed.
+
+Definition res_nocolon_witness : list byte :=
+  [72;84;84;80;47;49;46;49;32;50;48;48;32;79;75;13;10; 66;97;100;13;10; 13;10].  (* "HTTP/1.1 200 OK\r\nBad\r\n\r\n" *)
+Lemma res_header_nocolon_rejected :
+  let '(h, rv, used) := res_parse hconn_init res_nocolon_witness in rv = NNG_EPROTO.
+Proof. vm_compute. reflexivity. Qed.
+
+(* the status code is read with atoi: "200x" is taken for 200 (the code as it is) *)
+Definition res_200x_witness : list byte :=
+  [72;84;84;80;47;49;46;49;32;50;48;48;120;32;79;75;13;10;13;10].               (* "HTTP/1.1 200x OK\r\n\r\n" *)
+Lemma res_status_200x_accepted :
+  let '(h, rv, used) := res_parse hconn_init res_200x_witness in rv = 0 /\ get_status h = 200.
+Proof. vm_compute. split; reflexivity. Qed.
